@@ -246,7 +246,9 @@ func (r *groupsRun) probe() {
 			})
 			c.Close()
 		}
-		r.sink.Emit("drv", "drv.group.probe", "open", open)
+		// ports the manager accounts as used: one per open group (the port it acquired), none once the group is gone
+		held := len(r.srv.Svc.VerifState().TCP.Used)
+		r.sink.Emit("drv", "drv.group.probe", "open", open, "ports_held", held)
 		if open {
 			r.sink.Emit("drv", "drv.group.served", "member", served)
 		}
@@ -454,6 +456,15 @@ func (r *groupsRun) one(traceNo, steps int) {
 		}
 	}
 	if r.kind != "tcpmux" {
+		r.probe()
+	}
+	if r.kind == "tcp" {
+		// a group on a server-chosen port: the port it was given goes back when the group ends
+		m0 := r.members[1]
+		m0.key, m0.param = "k1", "p0"
+		r.join(m0)
+		r.probe()
+		r.leave(m0)
 		r.probe()
 	}
 	mm := r.members[0]
